@@ -33,9 +33,10 @@ def _spd(g, n, cond_hi, lo=-1.0, hi=0.5):
     return g.spd(n, cond=10 ** r.uniform(0, cond_hi), scale=10 ** r.uniform(lo, hi))
 
 
-def gen_case(g, tier, idx):
+def gen_case(g, tier, idx, base=None):
     r = g.r
-    style = r.choice(["plain", "plain", "plain", "wna", "wna", "gausslik", "samebelief", "tiny", "zeros", "illcond"])
+    style = r.choice(["plain", "plain", "wna", "wna", "gausslik", "gausslik", "samebelief", "tiny", "zeros", "illcond",
+                      "neardup", "neardup", "scale", "scale", "many", "singular"])
     big_n = 4
     n = r.randint(1, big_n)
     k = r.randint(1, 8)
@@ -46,12 +47,26 @@ def gen_case(g, tier, idx):
     if style == "samebelief":
         n = r.randint(1, 4)
         k = r.randint(n + 1, 8)
+    if style == "many":         # batches of 16 and more (vectorised loops), and one beyond
+        n = r.randint(1, 3)
+        k = r.choice([16, 17, 31, 32, 33, 40])
+    if style == "neardup":
+        k = r.randint(2, 8)
+    if style == "singular":
+        n = r.randint(2, 4)
     m = r.randint(1, 3)
     pred_kind = r.choice([0, 1])
     corr_kind = r.choice([0, 1, 2])
     alpha, beta, kappa = r.choice([(1.0, 2.0, 0.0), (1.0, 2.0, 1.0), (0.75, 2.0, 0.0), (1.0, 0.0, 0.5)])
     sub = r.choice([d for d in (1, 2, 3) if m % d == 0])
     seed = r.randint(0, 2 ** 32 - 1) if r.random() < 0.8 else r.choice([0, 1, 2 ** 32 - 1])
+    if base is not None:
+        # a further segment of the same history: same objects, hence same dimensions and configuration;
+        # another number of particles
+        style = "gausslik" if base["shipped_lik"] else "plain"
+        n, m, pred_kind, corr_kind, sub, seed = base["n"], base["m"], base["pred_kind"], base["corr_kind"], base["sub"], base["seed"]
+        alpha, beta, kappa = base["alpha"], base["beta"], base["kappa"]
+        k = base.get("force_k") or r.choice([x for x in (1, 2, 3, 5, 8, 12) if x != base["k"]])
     F = g.mat(n, n, -1.0, 1.0)
     if r.random() < 0.3:
         F = [[(1.0 if i == j else (0.5 if j == i + 1 else 0.0)) for j in range(n)] for i in range(n)]
@@ -77,7 +92,7 @@ def gen_case(g, tier, idx):
         return {"A": g.mat(n, n, -1.0, 1.0), "b": g.vec(n, -1, 1),
                 "c": (0.0 if (style == "zeros" and r.random() < 0.5) else r.uniform(0.05, 3.0))}
     R = new_R()
-    exo = r.random() < 0.4
+    exo = r.random() < 0.4 if base is None else base["exo"]
     vary = r.random() < 0.75          # models change from step to step (same sizes)
     cond_hi = 5.5 if style == "illcond" else 2.5
     if style == "samebelief":
@@ -88,7 +103,30 @@ def gen_case(g, tier, idx):
     else:
         means = [g.vec(n, -2, 2) for _ in range(k)]
         covs = [_spd(g, n, cond_hi) for _ in range(k)]
+    if style == "singular":
+        # exactly representable, exactly singular PSD covariances B B^T (rank < n), per particle
+        covs = []
+        for i in range(k):
+            rk = r.randint(1, n - 1)
+            B = [[r.randint(-4, 4) / 2.0 for _ in range(rk)] for _ in range(n)]
+            covs.append([[sum(B[a][c] * B[b][c] for c in range(rk)) for b in range(n)] for a in range(n)])
+        means = [[g.dyadic(-2, 2, 3) for _ in range(n)] for _ in range(k)]
     states = [[means[i][j] + r.uniform(-1, 1) for j in range(n)] for i in range(k)]
+    if style == "neardup":
+        # consecutive particles equal, or equal up to a tiny relative perturbation (along one direction)
+        for i in range(1, k):
+            if r.random() < 0.7:
+                mode = r.choice(["equal", "tiny-belief", "tiny-state", "weak-direction"])
+                means[i] = list(means[i - 1]); covs[i] = [list(row) for row in covs[i - 1]]; states[i] = list(states[i - 1])
+                d = r.choice([1e-13, 1e-10, 1e-7])
+                if mode == "tiny-belief":
+                    means[i] = [v * (1 + d) for v in means[i]]
+                    covs[i] = [[v * (1 + d) for v in row] for row in covs[i]]
+                elif mode == "tiny-state":
+                    states[i] = [v * (1 + d) for v in states[i]]
+                elif mode == "weak-direction":
+                    j = r.randrange(n)
+                    covs[i][j][j] *= (1 + d); means[i][j] += d
     weights = [r.uniform(-6.0, 0.0) for _ in range(k)]
     if style == "zeros":
         weights[0] = 0.0
@@ -97,6 +135,8 @@ def gen_case(g, tier, idx):
         trans = {"kind": 1, "T": r.choice([0.5, 1.0, 2.0]), "q": r.choice([4.0, 10.0, 30.0])}
     else:
         trans = {"kind": 0}
+    if base is not None:
+        trans = dict(base["trans"])
     cur_tr = new_trans()
     # history
     nsteps = r.randint(3, 6) if style != "tiny" else r.randint(1, 4)
@@ -114,7 +154,7 @@ def gen_case(g, tier, idx):
     if "C" not in kinds:
         kinds[-1] = "C"
     shipped_lik = (style == "gausslik")
-    lik_scale = r.choice([1.0, 1.0, 0.5, 3.0])
+    lik_scale = r.choice([1.0, 1.0, 0.5, 3.0]) if base is None else base["lik_scale"]
     steps = []
     for s, kd in enumerate(kinds):
         skip = (r.random() < 0.12) and not (style == "samebelief" and s == 0)
@@ -123,6 +163,7 @@ def gen_case(g, tier, idx):
             if vary and r.random() < 0.7:
                 F, Q = new_F(), _spd(g, n, 2)
             st["F"], st["Q"] = F, Q
+            st["hand"] = r.choice([1, 2]) if (s > 0 and "P" in kinds[:s] and r.random() < 0.2) else 0
             if exo:
                 st["exo_skip"] = r.random() < 0.3
                 st["G"] = g.mat(n, n, -0.5, 0.5) if r.random() < 0.7 else [[0.0] * n for _ in range(n)]
@@ -139,9 +180,13 @@ def gen_case(g, tier, idx):
             xs = g.vec(n, -2, 2)
             st["y"] = [sum(H[i][j] * xs[j] for j in range(n)) + r.uniform(-0.5, 0.5) for i in range(m)]
             st["valid"] = not (r.random() < 0.18) or (style == "samebelief" and s == 0)
-            st["move"] = (s > 0 and "C" in kinds[:s] and r.random() < 0.15)
+            st["move"] = r.choice([1, 2]) if (s > 0 and "C" in kinds[:s] and r.random() < 0.2) else 0
             if shipped_lik:
-                st["lik"] = {"kind": 2, "scale": lik_scale}
+                st["lik"] = {"kind": 2, "scale": lik_scale, "fail": 0}
+                if r.random() < 0.2 and not (style == "samebelief" and s == 0):
+                    # a call of the measurement model fails: the likelihood turns invalid from inside
+                    st["lik"]["fail"] = r.randint(1, 4)
+                    st["front_valid"], st["valid"] = True, False
             elif r.random() < 0.5:
                 l = [r.uniform(0.01, 2.0) for _ in range(k)]
                 if style == "zeros":
@@ -152,10 +197,60 @@ def gen_case(g, tier, idx):
             else:
                 st["lik"] = {"kind": 1, "c": [r.uniform(0.05, 3.0) for _ in range(k)], "a": g.vec(n, -2, 2)}
         steps.append(st)
+    if style == "singular":
+        # one correction whose wrapped step is skipped: the draw uses the singular covariance itself
+        cs = [st for st in steps if st["kind"] == "C"][:1]
+        cs[0].update(skip=True, valid=True, inplace=False, move=0)
+        cs[0].pop("front_valid", None)
+        if cs[0]["lik"]["kind"] == 2:
+            cs[0]["lik"]["fail"] = 0
+        steps = cs
+    if style == "many":
+        steps = steps[:3]
+        if not any(st["kind"] == "C" and st["valid"] for st in steps):
+            for st in steps:
+                if st["kind"] == "C":
+                    st["valid"] = True
+                    st.pop("front_valid", None)
+                    if st["lik"]["kind"] == 2:
+                        st["lik"]["fail"] = 0
     meta = dict(style=style, n=n, k=k, m=m, seed=seed, pred_kind=pred_kind, corr_kind=corr_kind,
-                alpha=alpha, beta=beta, kappa=kappa, sub=sub, exo=exo, trans=trans,
+                alpha=alpha, beta=beta, kappa=kappa, sub=sub, exo=exo, trans=trans, shipped_lik=shipped_lik, lik_scale=lik_scale,
                 states=states, means=means, covs=covs, weights=weights, steps=steps)
+    if style == "scale":
+        rescale(meta, 10.0 ** r.choice([-9, -6, -3, 3, 6, 9]) * r.uniform(1.0, 3.0))
+    if base is not None:
+        return None, meta
+    if style in ("plain", "gausslik", "neardup", "zeros") and r.random() < 0.4:
+        # the same objects go on with particle sets of other sizes (non-monotone: k, k', sometimes k again)
+        segs = [gen_case(g, tier, idx, base=meta)[1]]
+        if r.random() < 0.5:
+            segs.append(gen_case(g, tier, idx, base=(dict(meta, force_k=meta["k"]) if r.random() < 0.5 else meta))[1])
+        meta["segments"] = segs
     return harness_line(meta), meta
+
+
+def rescale(M, sc):
+    """the same problem in other units: lengths times sc (covariances sc^2); everything the property
+    constrains is scale-free, so nothing in the code may depend on absolute magnitudes"""
+    M["scale"] = sc
+    M["states"] = [[v * sc for v in x] for x in M["states"]]
+    M["means"] = [[v * sc for v in x] for x in M["means"]]
+    M["covs"] = [[[v * sc * sc for v in row] for row in P] for P in M["covs"]]
+    if M["trans"]["kind"] == 1:
+        M["trans"]["q"] *= sc * sc
+    for st in M["steps"]:
+        if st["kind"] == "P":
+            st["Q"] = [[v * sc * sc for v in row] for row in st["Q"]]
+            if "g" in st:
+                st["g"] = [v * sc for v in st["g"]]
+        else:
+            st["R"] = [[v * sc * sc for v in row] for row in st["R"]]
+            st["y"] = [v * sc for v in st["y"]]
+            if "trans" in st:
+                st["trans"] = dict(st["trans"], b=[v * sc for v in st["trans"]["b"]])
+            if st["lik"]["kind"] == 1:
+                st["lik"] = dict(st["lik"], a=[v * sc for v in st["lik"]["a"]])
 
 
 def _set_tokens(n, k, states, means, covs, weights):
@@ -173,28 +268,39 @@ def harness_line(M):
     tr = M["trans"]
     t += ["1" if M["exo"] else "0"]
     t += ["0"] if tr["kind"] == 0 else ["1", hexd(tr["T"]), hexd(tr["q"])]
-    t += _set_tokens(n, k, M["states"], M["means"], M["covs"], M["weights"])
-    t.append(str(len(M["steps"])))
-    for st in M["steps"]:
+    t += _seg_tokens(M, M)
+    for S2 in M.get("segments", []):
+        t += ["R", str(S2["k"])] + _seg_tokens(M, S2)
+    return " ".join(t)
+
+
+def _seg_tokens(M, S2):
+    """tokens of one segment (particle set + steps); M carries the configuration shared by all segments"""
+    n, k, m = M["n"], S2["k"], M["m"]
+    tr = M["trans"]
+    t = _set_tokens(n, k, S2["states"], S2["means"], S2["covs"], S2["weights"])
+    t.append(str(len(S2["steps"])))
+    for st in S2["steps"]:
         t += [st["kind"], "1" if st["skip"] else "0"]
         if st["kind"] == "P":
+            t += [str(int(st.get("hand", 0)))]
             t += vlib.fmt_mat_cm(st["F"]) + vlib.fmt_mat_cm(st["Q"])
             if M["exo"]:
                 t += ["1" if st["exo_skip"] else "0"] + vlib.fmt_mat_cm(st["G"]) + [hexd(v) for v in st["g"]]
         if st["kind"] == "C":
-            t += ["1" if st.get("move") else "0", "1" if st.get("inplace") else "0"]
+            t += [str(int(st.get("move", 0))), "1" if st.get("inplace") else "0"]
             t += vlib.fmt_mat_cm(st["H"]) + vlib.fmt_mat_cm(st["R"])
             if tr["kind"] == 0:
                 t += vlib.fmt_mat_cm(st["trans"]["A"]) + [hexd(v) for v in st["trans"]["b"]] + [hexd(st["trans"]["c"])]
-            t += [hexd(v) for v in st["y"]] + ["1" if st["valid"] else "0"]
+            t += [hexd(v) for v in st["y"]] + ["1" if st.get("front_valid", st["valid"]) else "0"]
             lk = st["lik"]
             if lk["kind"] == 0:
                 t += ["0"] + [hexd(v) for v in lk["l"]]
             elif lk["kind"] == 1:
                 t += ["1"] + [hexd(v) for v in lk["c"]] + [hexd(v) for v in lk["a"]]
             else:
-                t += ["2", hexd(lk["scale"])]
-    return " ".join(t)
+                t += ["2", hexd(lk["scale"]), str(int(lk.get("fail", 0)))]
+    return t
 
 
 # ----------------------------------------------------------------------------- parsing
@@ -232,46 +338,67 @@ def set_size(n, k):
     return 2 * n * k + n * n * k + k
 
 
+def segments_of(M):
+    """[(segment description with the shared configuration filled in)] — the first segment is M itself"""
+    out = [M]
+    for S2 in M.get("segments", []):
+        out.append(dict(M, k=S2["k"], states=S2["states"], means=S2["means"], covs=S2["covs"], weights=S2["weights"],
+                        steps=S2["steps"], style=M["style"], segments=[]))
+    return out
+
+
 def parse_harness(M, out):
-    """-> dict(wnaF, wnaQ, steps=[dict(set, dmeans, dcovs, same, zraw, calls, valid, l, t, gvalid, gl)])"""
-    n, k = M["n"], M["k"]
+    """-> one dict per segment: dict(wnaF, wnaQ, steps=[dict(set, dmeans, dcovs, same, zraw, calls, valid, l, t, gvalid, gl)])"""
+    n = M["n"]
     t = out.split()
     if not t or t[0] != "ok":
         return None
     p = 1
-    res = {"steps": []}
+    results = []
     try:
+        wna = {}
         if M["trans"]["kind"] == 1:
-            res["wnaF"] = vlib.mat_from_cm(t[p:p + n * n], n, n, unhex); p += n * n
-            res["wnaQ"] = vlib.mat_from_cm(t[p:p + n * n], n, n, unhex); p += n * n
-        for st in M["steps"]:
-            d = {}
-            d["set"] = PSetHex(t[p:p + set_size(n, k)], n, k); p += set_size(n, k)
-            d["dmeans"] = t[p:p + n * k]; p += n * k
-            d["dcovs"] = t[p:p + n * n * k]; p += n * n * k
-            d["same"] = t[p]; p += 1
-            if st["kind"] == "C":
-                d["zraw"] = t[p:p + n * k]; p += n * k
-                d["calls"] = int(t[p]); p += 1
-                if t[p] == "lik":
-                    d["valid"] = True; p += 1
-                    cnt = int(t[p]); p += 1
-                    d["l"] = t[p:p + cnt]; p += cnt
-                    cnt = int(t[p]); p += 1
-                    d["t"] = t[p:p + cnt]; p += cnt
-                elif t[p] == "nolik":
-                    d["valid"] = False; p += 1
-                else:
+            wna["wnaF"] = vlib.mat_from_cm(t[p:p + n * n], n, n, unhex); p += n * n
+            wna["wnaQ"] = vlib.mat_from_cm(t[p:p + n * n], n, n, unhex); p += n * n
+        for si, S2 in enumerate(segments_of(M)):
+            k = S2["k"]
+            if si > 0:
+                if t[p] != "R":
                     return None
-                d["gvalid"] = (t[p] == "glik"); p += 1
-                cnt = int(t[p]); p += 1
-                d["gl"] = t[p:p + cnt]; p += cnt
-            res["steps"].append(d)
+                p += 1
+            res = dict(wna, steps=[])
+            for st in S2["steps"]:
+                d = {}
+                d["set"] = PSetHex(t[p:p + set_size(n, k)], n, k); p += set_size(n, k)
+                if len(d["set"].tokens()) != set_size(n, k):
+                    return None
+                d["dmeans"] = t[p:p + n * k]; p += n * k
+                d["dcovs"] = t[p:p + n * n * k]; p += n * n * k
+                d["same"] = t[p]; p += 1
+                if st["kind"] == "C":
+                    d["zraw"] = t[p:p + n * k]; p += n * k
+                    d["calls"] = int(t[p]); p += 1
+                    d["decoy_calls"] = int(t[p]); p += 1
+                    if t[p] == "lik":
+                        d["valid"] = True; p += 1
+                        cnt = int(t[p]); p += 1
+                        d["l"] = t[p:p + cnt]; p += cnt
+                        cnt = int(t[p]); p += 1
+                        d["t"] = t[p:p + cnt]; p += cnt
+                    elif t[p] == "nolik":
+                        d["valid"] = False; p += 1
+                    else:
+                        return None
+                    d["gvalid"] = (t[p] == "glik"); p += 1
+                    cnt = int(t[p]); p += 1
+                    d["gl"] = t[p:p + cnt]; p += cnt
+                res["steps"].append(d)
+            results.append(res)
     except (IndexError, ValueError):
         return None
     if p != len(t):
         return None
-    return res
+    return results
 
 
 # ----------------------------------------------------------------------------- numeric helpers
@@ -355,6 +482,33 @@ def gauss_logpdf_exact(d, P):
     Pinv = [[(adj[i][j] / detA) * (2.0 ** e) if e < 1000 else float(Fraction(adj[i][j] << e, detA)) for j in range(n)] for i in range(n)]
     cond = max(1.0, vlib.fnorm(P) * n * vlib.fnorm(Pinv) * n)
     return -0.5 * (n * LOG2PI + log_frac(det) + float(quad)), quad, cond, Pinv
+
+
+def nullspace_frac(A):
+    """basis of the kernel of a square matrix of doubles, exact (rational row reduction)"""
+    n = len(A)
+    Mx = [[Fraction(x) for x in row] for row in A]
+    piv, rrow = [], 0
+    for c in range(n):
+        p = next((r_ for r_ in range(rrow, n) if Mx[r_][c] != 0), None)
+        if p is None:
+            continue
+        Mx[rrow], Mx[p] = Mx[p], Mx[rrow]
+        pv = Mx[rrow][c]
+        Mx[rrow] = [x / pv for x in Mx[rrow]]
+        for r_ in range(n):
+            if r_ != rrow and Mx[r_][c] != 0:
+                f = Mx[r_][c]
+                Mx[r_] = [a - f * b for a, b in zip(Mx[r_], Mx[rrow])]
+        piv.append(c); rrow += 1
+    basis = []
+    for fc in [c for c in range(n) if c not in piv]:
+        w = [Fraction(0)] * n
+        w[fc] = Fraction(1)
+        for r_, c in enumerate(piv):
+            w[c] = -Mx[r_][fc]
+        basis.append(w)
+    return basis
 
 
 def safe_exp(x):
@@ -453,22 +607,26 @@ def driver_line(M, H_, wit, zarr):
     for s, (st, hs) in enumerate(zip(M["steps"], H_["steps"])):
         t += [st["kind"], "1" if st["skip"] else "0"] + hs["dmeans"] + hs["dcovs"]
         if st["kind"] == "C":
+            t.append(str(int(st.get("move", 0))))
             for i in range(k):
                 t += vlib.fmt_mat_cm(wit[s][i])
             t += zarr[s]
-            t.append("1" if st["valid"] else "0")
+            t.append("1" if st.get("front_valid", st["valid"]) else "0")
             lk = st["lik"]
             if lk["kind"] == 0:
                 t += ["0"] + [hexd(v) for v in lk["l"]]
             elif lk["kind"] == 1:
                 t += ["1"] + [hexd(v) for v in lk["c"]] + [hexd(v) for v in lk["a"]]
             else:
-                t += ["2", hexd(lk["scale"])] + vlib.fmt_mat_cm(st["H"]) + vlib.fmt_mat_cm(st["R"]) + [hexd(v) for v in st["y"]]
+                fl = int(lk.get("fail", 0))
+                t += ["2", hexd(lk["scale"])] + ["0" if fl == j else "1" for j in (1, 2, 3, 4)] + vlib.fmt_mat_cm(st["H"]) + vlib.fmt_mat_cm(st["R"]) + [hexd(v) for v in st["y"]]
             tr = M["trans"]
             if tr["kind"] == 0:
                 t += ["0"] + vlib.fmt_mat_cm(st["trans"]["A"]) + [hexd(v) for v in st["trans"]["b"]] + [hexd(st["trans"]["c"])]
-            else:   # the shipped model's own F and Q (their closed form is property C16)
-                t += ["1"] + vlib.fmt_mat_cm(H_["wnaF"]) + vlib.fmt_mat_cm(H_["wnaQ"])
+            elif H_.get("wna_closed_form"):   # the model builds F and Q itself from (T, q~)
+                t += ["1", hexd(tr["T"]), hexd(tr["q"])]
+            else:   # the shipped model's own F and Q differ from the closed form (property C16, not decided here)
+                t += ["2"] + vlib.fmt_mat_cm(H_["wnaF"]) + vlib.fmt_mat_cm(H_["wnaQ"])
     return " ".join(t)
 
 
@@ -526,7 +684,8 @@ def analyse(M, Hh, acc):
         Fc, Qc = wna_FQ(n, tr["T"], tr["q"])
         dF = max(abs(F[i][j] - Fc[i][j]) for i in range(n) for j in range(n))
         dQ = max(abs(Q[i][j] - Qc[i][j]) / max(abs(Qc[i][j]), 1e-300) for i in range(n) for j in range(n))
-        if dF > 0 or dQ > 8 * EPS:
+        Hh["wna_closed_form"] = not (dF > 0 or dQ > 8 * EPS)
+        if not Hh["wna_closed_form"]:
             acc.hit("note:wna-F-or-Q-not-closed-form (property C16, not decided here)")
         Ff = [[Fraction(x) for x in row] for row in F]
     for s, (st, hs) in enumerate(zip(M["steps"], Hh["steps"])):
@@ -545,6 +704,34 @@ def analyse(M, Hh, acc):
                        or cur.covs[i * n * n:(i + 1) * n * n] != hs["dcovs"][i * n * n:(i + 1) * n * n]]
                 prop.append(("belief-not-wrapped-step", "%s: beliefs of particles %s differ from the wrapped %s step run directly on the same beliefs"
                              % (tag, bad, "prediction" if st["kind"] == "P" else "correction")))
+        if M["style"] == "singular" and st["kind"] == "C":
+            # singular P': there is no proposal density (the code's weights are not decided); the position
+            # clause that remains is the support: x - mu' is orthogonal to the kernel of P' (gpf_sample_support)
+            for i in range(k):
+                P = cur.cov(i); mu = cur.mean(i, fh)
+                if any(not math.isfinite(unhex(a)) for a in cur.states[i * n:(i + 1) * n]):
+                    prop.append(("singular-covariance-nan-position", "%s: non-finite position for a singular positive semi-definite covariance (particle %d): "
+                                 "the square root of a rounding-negative LDLT pivot" % (tag, i)))
+                    continue
+                x = cur.state(i, fh)
+                v = [a - b for a, b in zip(x, mu)]
+                vmax = max([abs(float(a)) for a in v] + [1e-300])
+                for wv in nullspace_frac(P):
+                    dotp = abs(float(sum(a * b for a, b in zip(v, wv))))
+                    wmax = max(abs(float(a)) for a in wv)
+                    # a factor built from square roots of pivots that are zero only up to rounding (eps |P'|)
+                    # reaches sqrt(eps |P'|) along the kernel: the tolerance is of that order
+                    tol_s = 64 * n * math.sqrt(EPS * max(vlib.fnorm(P), 1e-300)) * wmax * n + 256 * n * EPS * max(abs(float(a)) for a in mu) * wmax
+                    acc.mx("support_err_over_tol", dotp / tol_s)
+                    acc.hit("singular-covariance:kernel-direction-checked")
+                    if dotp > tol_s:
+                        prop.append(("support", "%s: particle %d: x - mu' has a component %.3g along the kernel of the singular covariance (tol %.3g): "
+                                     "the position left mu' + range(P')" % (tag, i, dotp, tol_s)))
+                if not math.isfinite(cur.weight(i)):
+                    acc.hit("note:non-finite-log-weight-for-singular-covariance (no proposal density; not decided)")
+            if cur.means != hs["dmeans"] or cur.covs != hs["dcovs"]:
+                prop.append(("belief-not-wrapped-step", "%s: beliefs differ from the wrapped correction run directly" % tag))
+            return None, None, None
         if any(not math.isfinite(unhex(a)) for a in hs["dmeans"] + hs["dcovs"]):
             acc.hit("note:wrapped-step-returned-non-finite-beliefs (case not decided further)")
             return None, None, None
@@ -553,6 +740,8 @@ def analyse(M, Hh, acc):
             return None, None, None
         if st["kind"] == "P":
             acc.hit("pred-wrapped:%s" % ["KF", "UKF"][M["pred_kind"]])
+            if st.get("hand"):
+                acc.hit("prediction-object-%s-mid-history" % ("move-constructed" if int(st["hand"]) == 1 else "move-assigned"))
             if M["exo"]:
                 acc.hit("prediction-with-exogenous-model:" + ("skipped" if (st["exo_skip"] or st["skip"]) else "active"))
             # ---- clause: prediction leaves positions and weights untouched
@@ -578,13 +767,21 @@ def analyse(M, Hh, acc):
         acc.hit("lik-kind:%d" % st["lik"]["kind"])
         acc.hit("trans-kind:%d" % tr["kind"])
         if st.get("move"):
-            acc.hit("correction-object-moved-mid-history")
+            acc.hit("correction-object-%s-mid-history" % ("move-constructed" if int(st["move"]) == 1 else "move-assigned"))
+        if hs.get("decoy_calls"):
+            # hand-over: the moved-to object consulted the likelihood model it was configured with before
+            # the assignment instead of the source's
+            prop.append(("move-assign-keeps-old-likelihood-model", "%s: after move assignment the GPFCorrection evaluated the likelihood model of the "
+                         "assigned-to object (%d calls), not the source's: it does not behave as the configured original" % (tag, hs["decoy_calls"])))
+            return None, None, None
         if hs["calls"] != 1:
             acc.hit("note:likelihood-model-called-%d-times" % hs["calls"])
         if hs["gvalid"] != st["valid"] or (st["valid"] and hs.get("valid") and hs["gl"] != hs["l"]):
             acc.hit("note:getLikelihood-differs-from-what-the-likelihood-model-returned")
         if invalid:
             acc.hit("branch:invalid-likelihood")
+            if st["lik"].get("fail"):
+                acc.hit("GaussianLikelihood-early-return:%s-fails" % ["", "measure", "predictedMeasure", "innovation", "noiseCovariance"][st["lik"]["fail"]])
             # ---- an invalid likelihood leaves the predicted set as it is
             if cur.tokens() != prev.tokens():
                 prop.append(("invalid-likelihood-not-identity", "%s: likelihood invalid but the returned set differs from the predicted set" % tag))
@@ -659,7 +856,7 @@ def analyse(M, Hh, acc):
                 d2 = sum((a - fr(b)) ** 2 for a, b in zip(x, lk["a"]))
                 want = float(fr(lk["c"][i]) / (1 + d2))
                 sc = max([abs(float(a)) for a in x] + [abs(b) for b in lk["a"]] + [1.0])
-                tl = 64 * n * EPS * (1 + sc * sc)
+                tl = 64 * n * EPS * (1 + sc)          # d/dx of c/(1+|x-a|^2) is at most the value itself
                 if abs(l - want) > tl * abs(want):
                     prop.append(("likelihood-value", "%s: particle %d: likelihood %.17g is not the likelihood of the new position (%.17g)" % (tag, i, l, want)))
             else:
@@ -685,7 +882,7 @@ def analyse(M, Hh, acc):
                 d = [x[a] - sum(Af[a][b] * xp[b] for b in range(n)) - bf[a] for a in range(n)]
                 want = float(fr(st["trans"]["c"]) / (1 + sum(a * a for a in d)))
                 sc = max([abs(float(a)) for a in x] + [abs(float(a)) for a in xp] + [1.0]) * max(vlib.fnorm(st["trans"]["A"]), 1.0) * n + 1
-                tt = 64 * n * EPS * (1 + sc * sc)
+                tt = 64 * n * EPS * (1 + sc)
                 if abs(tv - want) > tt * abs(want):
                     prop.append(("transition-value", "%s: particle %d transition density %.17g, t(prev_i, new_i) = %.17g" % (tag, i, tv, want)))
             else:
@@ -822,25 +1019,30 @@ def run(ctx):
         if h.startswith("crash") or not h.startswith("ok"):
             a.prop.append(("impl-crash", "implementation failed on a valid history: %s" % h[:120]))
         else:
-            Hh = parse_harness(M, h)
-            if Hh is None:
+            Hhs = parse_harness(M, h)
+            if Hhs is None:
                 a.prop.append(("impl-output", "harness output malformed: %s" % h[:120]))
             else:
-                wit, tols, zarr = analyse(M, Hh, a)
-                info["Hh"], info["tols"] = Hh, tols
-                if wit is not None:
-                    dlines.append(driver_line(M, Hh, wit, zarr))
-                    didx.append(ci)
+                info["segs"] = []
+                for si, (S2, Hh) in enumerate(zip(segments_of(M), Hhs)):
+                    if si > 0:
+                        acc.hit("segment-with-another-particle-count (same objects)")
+                    wit, tols, zarr = analyse(S2, Hh, a)
+                    if wit is None:
+                        break
+                    info["segs"].append((S2, Hh, tols))
+                    dlines.append(driver_line(S2, Hh, wit, zarr))
+                    didx.append((ci, len(info["segs"]) - 1))
         per_case.append(info)
     dout = vlib.run_driver(dlines)
-    for ci, d in zip(didx, dout):
-        M = cases[ci][1]
+    for (ci, si), d in zip(didx, dout):
         info = per_case[ci]
-        ms = parse_driver(M, d)
+        S2, Hh, tols = info["segs"][si]
+        ms = parse_driver(S2, d)
         if ms is None:
             info["acc"].corr.append(("model-undefined", "model not defined on a valid history: %s" % d[:80]))
         else:
-            compare_model(M, info["Hh"], ms, info["tols"], info["acc"])
+            compare_model(S2, Hh, ms, tols, info["acc"])
     # decision
     n_prop = n_corr = 0
     reported = set()
